@@ -449,8 +449,12 @@ fn do_from_expr(
     }
 }
 
+fn dot_escape(s: &str) -> String {
+    s.replace('\\', "\\\\").replace('"', "\\\"")
+}
+
 pub(crate) fn make_dot_string_constant(s: &str) -> String {
-    let escaped = s.replace('\\', "\\\\").replace('"', "\\\"");
+    let escaped = dot_escape(s);
     format!(r#""{escaped}""#)
 }
 
@@ -531,7 +535,9 @@ fn do_to_dot<W: Write>(
             else {
                 unreachable!();
             };
+            let literal = dot_escape(&literal);
             if let Some(description) = description {
+                let description = dot_escape(&description);
                 writeln!(
                     output,
                     r#"{indentation}{node_dot_id}[label="{pos}: \"{literal}\"\n\"{description}\""];"#
@@ -551,6 +557,7 @@ fn do_to_dot<W: Write>(
             let RegexInput::Nonterminal { nonterm, .. } = input else {
                 unreachable!()
             };
+            let nonterm = dot_escape(&nonterm);
             writeln!(
                 output,
                 r#"{indentation}{node_dot_id}[label="{pos}: <{nonterm}>"];"#
